@@ -141,9 +141,21 @@ def optional_header_forms(ctx):
 
 
 # ---------------------------------------------------------------------------------------------- D1
-def _accepted_keys(fi):
-    """String constants tested with `in obj` / `in obj.keys()` or used as subscripts in a from_obj body."""
+def _accepted_keys(fi, repo=None, _depth=0, _seen=None):
+    """String constants tested with `in obj` / `in obj.keys()` or used as subscripts in a from_obj body - and in the functions of
+    the repository it calls (the body may live in a helper, possibly in another module)."""
     out = set()
+    _seen = _seen if _seen is not None else set()
+    _seen.add(id(fi.node))
+    if repo is not None and _depth < 2:
+        for n in ast.walk(fi.node):
+            if isinstance(n, ast.Call) and isinstance(n.func, (ast.Name, ast.Attribute)):
+                r = repo.resolve_expr(fi.module, n.func)
+                if r is None and isinstance(n.func, ast.Attribute) and isinstance(n.func.value, ast.Name) and n.func.value.id in ("cls", "self") and fi.cls is not None:
+                    g_ = repo.lookup_method(fi.cls, n.func.attr)
+                    r = ("func", g_) if g_ is not None else None
+                if r and r[0] == "func" and id(r[1].node) not in _seen and r[1].name not in ("from_obj", "to_obj", "from_cbor", "to_cbor"):
+                    out |= _accepted_keys(r[1], repo, _depth + 1, _seen)
     for n in ast.walk(fi.node):
         if isinstance(n, ast.Compare) and len(n.ops) == 1 and isinstance(n.ops[0], (ast.In, ast.NotIn)) \
                 and isinstance(n.left, ast.Constant) and isinstance(n.left.value, str):
@@ -177,7 +189,7 @@ def key_agreement(ctx):
         if not shaped:
             # list / passthrough renderers have no keys to agree on
             continue
-        accepted = _accepted_keys(from_obj) if from_obj is not None else set()
+        accepted = _accepted_keys(from_obj, repo) if from_obj is not None else set()
         R.check("C03-D1a writer/reader key agreement", emitted <= accepted, f"{ci.name}: emits {sorted(emitted)}", mod=ci.module,
                 node=to_obj.node, function=ctx.fq(to_obj), expected=f"subset of the keys from_obj accepts {sorted(accepted)}",
                 found=f"{sorted(emitted - accepted)} would be rejected when the parse output is fed to create")
